@@ -346,7 +346,8 @@ def run_conc(ctx, thorough, tag="conc"):
     n, rounds = (48, 40) if thorough else (32, 12)
     jobs = []
     for tr, codec in (("mock", ""), ("http", "json"), ("http", "msgpack"), ("grpc", "internal"), ("grpc", "")):
-        jobs.append({"tr": tr, "codec": codec, "n": n, "rounds": rounds, "seed": ctx.seed})
+        # in-memory calls are cheap: many more of them
+        jobs.append({"tr": tr, "codec": codec, "n": n, "rounds": rounds * (50 if tr == "mock" else 1), "seed": ctx.seed})
     jp, op = ctx.path("%s_jobs.ndjson" % tag), ctx.path("%s_out.ndjson" % tag)
     with open(jp, "w") as f:
         for j in jobs:
@@ -354,13 +355,26 @@ def run_conc(ctx, thorough, tag="conc"):
     rc, text, wall = ctx.go_test("freighter/go", "./", HARNESS, "^TestVerifUnaryConcurrent$",
                                  env={"VERIF_IN": jp, "VERIF_OUT": op}, tag="go_" + tag, timeout=900)
     rows = ctx.read_ndjson(op)
+    if len(rows) < len(jobs) and "fatal error: concurrent map" in text:
+        # the Go runtime killed the process while the callers of jobs[len(rows)] were running: rows
+        # are written as each transport finishes
+        j = jobs[len(rows)]
+        rows.append({"tr": j["tr"], "codec": j["codec"], "status": "died", "calls": 0, "ok": 0, "errs": 0, "max_in_flight": 0,
+                     "mismatches": ["process died: fatal error: concurrent map access while %d callers used one client" % j["n"]]})
+        while len(rows) < len(jobs):
+            j = jobs[len(rows)]
+            rows.append({"tr": j["tr"], "codec": j["codec"], "status": "not run", "calls": 0, "ok": 0, "errs": 0,
+                         "max_in_flight": 9, "mismatches": []})
+        return jobs, rows, wall
     if rc != 0 or len(rows) != len(jobs):
         raise vlib.Inconclusive("concurrency harness failed rc=%s rows=%d/%d:\n%s" % (rc, len(rows), len(jobs), text[-2000:]))
     return jobs, rows, wall
 
 
 def conc_sig(tr, text):
-    if "param" in text:
+    if "process died" in text:
+        what = "the process dies (concurrent map access)"
+    elif "param" in text:
         what = "a call saw the params of another call"
     elif "response of another call" in text:
         what = "a call received the response of another call"
@@ -402,8 +416,8 @@ def run(ctx):
             raise vlib.Inconclusive("vacuity witness %s not reachable (violated=%s)" % (wit, r.violated))
 
     # 2. cases
-    plan = [(2, 2, ALL_BEHS, None)] if not thorough else [(2, 2, ALL_BEHS, None), (3, 3, CORE_BEHS, None), (3, 2, ALL_BEHS, 60000),
-                                                          (2, 3, ALL_BEHS, 60000)]
+    plan = [(2, 2, ALL_BEHS, None)] if not thorough else [(2, 2, ALL_BEHS, None), (3, 3, CORE_BEHS, None), (3, 2, ALL_BEHS, None),
+                                                          (2, 3, ALL_BEHS, None)]
     cases, gen_info, seen = [], [], set()
     for n, (mk, mm, behs, limit) in enumerate(plan):
         name = "gen%d.cfg" % n
@@ -451,6 +465,8 @@ def run(ctx):
     conc_ev = []
     for j, row in zip(cjobs, crows):
         conc_ev.append({k: row.get(k) for k in ("tr", "codec", "status", "calls", "ok", "errs", "max_in_flight")})
+        if row["status"] == "not run":
+            continue
         if row["status"] != "ok" and not row["mismatches"]:
             raise vlib.Inconclusive("concurrency stage %s: %s %s" % (row["tr"], row["status"], row.get("note")))
         if row["mismatches"]:
